@@ -81,7 +81,19 @@ pub fn run(ctx: &mut Ctx) {
         } else {
             let sn = ctx.tape.choose(n_subnets as u32) as u8;
             let host = 1 + ctx.tape.choose(40) as u8;
-            ident::RecSpec { ident: ix, seq, ip4: Some(([10, 0, sn, host], 9000)), ip6: None, pad: 0 }
+            // unusual record shapes: an IPv4 address without a UDP port (still an IPv4 address for the
+            // limits), or IPv4 and IPv6 endpoints together
+            match ctx.tape.choose(8) {
+                0 => ident::RecSpec { ident: ix, seq, ip4: Some(([10, 0, sn, host], 0)), ip6: None, pad: 0 },
+                1 => {
+                    let mut ip6 = [0u8; 16];
+                    ip6[0] = 0x20;
+                    ip6[1] = 0x01;
+                    ip6[15] = (ix % 250) as u8 + 1;
+                    ident::RecSpec { ident: ix, seq, ip4: Some(([10, 0, sn, host], if ctx.tape.choose(2) == 0 { 0 } else { 9000 })), ip6: Some((ip6, 9000)), pad: 0 }
+                }
+                _ => ident::RecSpec { ident: ix, seq, ip4: Some(([10, 0, sn, host], 9000)), ip6: None, pad: 0 },
+            }
         }
     };
     for &ix in &ids {
@@ -242,7 +254,7 @@ fn table_index(local: &NodeId, other: &NodeId) -> usize {
 
 fn spec_str(s: &ident::RecSpec) -> String {
     match (s.ip4, s.ip6) {
-        (Some((ip, _)), _) => format!("{}.{}.{}.{}/s{}", ip[0], ip[1], ip[2], ip[3], s.seq),
+        (Some((ip, port)), v6) => format!("{}.{}.{}.{}{}{}/s{}", ip[0], ip[1], ip[2], ip[3], if port == 0 { "(no-udp)" } else { "" }, if v6.is_some() { "+v6" } else { "" }, s.seq),
         (None, Some(_)) => format!("v6only/s{}", s.seq),
         _ => format!("noaddr/s{}", s.seq),
     }
